@@ -513,6 +513,7 @@ def evaluate_concurrent(ctx, case):
 def evaluate_concurrent_many(ctx, cases):
     """run the concurrent cases, then judge all of them (two driver batches)"""
     stream_b = b''.join(ln + b'\n' for ln in B_SCRIPT)
+    orc = oracles_for(ctx, [b''.join(bytes.fromhex(c) for c in case['chunks']) for case in cases] + [stream_b])
     runs, reqs = [], []
     for case in cases:
         res = run_concurrent(case)
@@ -523,7 +524,7 @@ def evaluate_concurrent_many(ctx, cases):
                          'flags': [line_flags(o, True) for o in outs]})
         reqs.append({'p': 'C07', 'k': 'judge_events', 'outs': [hx(o) for o in res['B']['lines']],
                      'subscribed': [hx(x) for x in B_SUBSCRIBED]})
-        reqs.append({'p': 'C07', 'k': 'neutral', 'stream': hx(streams['A'])})
+        reqs.append(dict({'p': 'C07', 'k': 'neutral', 'stream': hx(streams['A'])}, **orc[streams['A']]))
         runs.append((case, res, streams))
     ans = ctx.driver.batch(reqs)
     for a in ans:
@@ -538,10 +539,11 @@ def evaluate_concurrent_many(ctx, cases):
             res['B_alone'] = alone['outs']
             idx.append(i)
             reqs2.append({'p': 'C07', 'k': 'judge_indep', 'conns': [
-                {'stream': hx(streams['A']), 'keep': [False] * len(na['neutral']),
-                 'all': [hx(canon_frame(o)) for o in res['A']['lines']], 'kept': []},
-                {'stream': hx(stream_b), 'keep': [True] * len(B_SCRIPT),
-                 'all': [hx(canon_frame(o)) for o in res['B']['lines']], 'kept': [hx(canon_frame(o)) for o in alone['outs']]}]})
+                dict({'stream': hx(streams['A']), 'keep': [False] * len(na['neutral']),
+                      'all': [hx(canon_frame(o)) for o in res['A']['lines']], 'kept': []}, **orc[streams['A']]),
+                dict({'stream': hx(stream_b), 'keep': [True] * len(B_SCRIPT),
+                      'all': [hx(canon_frame(o)) for o in res['B']['lines']], 'kept': [hx(canon_frame(o)) for o in alone['outs']]},
+                     **orc[stream_b])]})
     indep = dict(zip(idx, ctx.driver.batch(reqs2))) if reqs2 else {}
     out = []
     for i, (case, res, streams) in enumerate(runs):
@@ -646,6 +648,13 @@ def gen_session(rng):
             ln = gen_probe(rng) if rng.random() < 0.55 else gen_request(rng, True)
             if rng.random() < 0.25:
                 ln = mutate(rng, ln)
+            elif ln.split(b' ')[0] in (b'read', b'change', b'do') and rng.random() < 0.3:
+                # a request for a module that is not a message: broken JSON or invalid UTF-8 (may be left out as well)
+                if rng.random() < 0.5:
+                    ln = b' '.join((ln.split(b' ', 2) + [b'm'])[:2] + [rng.choice(BROKEN_JSON).encode()])
+                else:
+                    pos = rng.randrange(len(ln) + 1)
+                    ln = ln[:pos] + rng.choice(BAD_UTF8) + ln[pos:]
             lines.append(ln)
         stream = b''.join(ln + rng.choice(EOLS) for ln in lines)
         if rng.random() < 0.1:
@@ -706,6 +715,7 @@ def evaluate_sessions(ctx, cases):
             flat_impls.append(r)
         out.append({'case': case, 'full': full, 'kept': kept})
     evs = evaluate(ctx, flat_cases, flat_impls)
+    orc = oracles_for(ctx, [bytes.fromhex(''.join(c['chunks'])) for case in cases for c in case['conns']])
     reqs = []
     pos = 0
     for o in out:
@@ -713,8 +723,9 @@ def evaluate_sessions(ctx, cases):
         o['evs'] = evs[pos:pos + 2 * n]
         pos += 2 * n
         reqs.append({'p': 'C07', 'k': 'judge_indep', 'conns': [
-            {'stream': ''.join(c['chunks']), 'keep': c['keep'], 'all': [hx(canon_frame(x)) for x in f['outs']],
-             'kept': [hx(canon_frame(x)) for x in k['outs']]} for c, f, k in zip(o['case']['conns'], o['full'], o['kept'])]})
+            dict({'stream': ''.join(c['chunks']), 'keep': c['keep'], 'all': [hx(canon_frame(x)) for x in f['outs']],
+                  'kept': [hx(canon_frame(x)) for x in k['outs']]}, **orc[bytes.fromhex(''.join(c['chunks']))])
+            for c, f, k in zip(o['case']['conns'], o['full'], o['kept'])]})
     for o, a in zip(out, ctx.driver.batch(reqs)):
         if 'driver_error' in a:
             raise RuntimeError(f'driver error: {a} on {o["case"]}')
@@ -885,6 +896,12 @@ def oracle_tables(ctx, streams):
                     js[ln['d']] = False
         res.append(([[k, v] for k, v in utf8.items()], [[k, v] for k, v in js.items()]))
     return res
+
+
+def oracles_for(ctx, streams):
+    """stream -> {'utf8': …, 'json': …}: the oracle tables as request fields"""
+    distinct = list(dict.fromkeys(streams))
+    return {s: {'utf8': u, 'json': j} for s, (u, j) in zip(distinct, oracle_tables(ctx, distinct))}
 
 
 def same_data(model_hex, impl_data):
@@ -1332,7 +1349,8 @@ def run(ctx):
     res.notes.append(f'{ncorpus} corpus cases run first')
     # ---------- sessions: connections one after the other on one node, run again with neutral lines left out ----------
     gen = [gen_session(rng) for _ in range(ctx.budget(250, 4000))]
-    answers = ctx.driver.batch([{'p': 'C07', 'k': 'neutral', 'stream': hx(s)} for streams, _ in gen for s in streams])
+    orc = oracles_for(ctx, [s for streams, _ in gen for s in streams])
+    answers = ctx.driver.batch([dict({'p': 'C07', 'k': 'neutral', 'stream': hx(s)}, **orc[s]) for streams, _ in gen for s in streams])
     sessions = list(sess_corpus)
     pos = 0
     for streams, disp in gen:
